@@ -25,6 +25,9 @@ def run(ctx):
     worldgen.compare(ctx, hists, "interval-lookup", "C06 lookup correspondence")
     ctx.cov["histories"] = nh
     ctx.cov["traces_validated_against_impl"] = nh
+    import loadedworld
+    lh = loadedworld.stream(ctx, g, ctx.rng, 6 if ctx.quick else 150, 12 if ctx.quick else 30, "loaded")
+    ctx.cov["histories_continued_from_loaded_files"] = len(lh)
     ctx.cov["rule"] = ("random edit histories of %d steps (offset/size/address edits, moves between intervals/sections/modules/IRs, removal, re-adding) "
                        "with lookups at points and ranges around every boundary (+-1), steps 1-3, empty ranges, zero-sized and overlapping "
                        "blocks, shared addresses, values near 2^64; one evaluation = one history; distinct = distinct item list" % ln)
